@@ -25,7 +25,8 @@ func genC11Hammer(seed uint64, r *rng) *Scenario {
 	s.Cache = []int{1, 2, 2, 3, 0}[r.n(5)]
 	sc.Res = []ReSpec{s}
 	kinds := [][]int{{OpReplace}, {OpReplace, OpReplaceAt}, {OpMatchString, OpMatchRunes}, {OpFindString, OpFindRunes, OpWalk2}, {OpFindAllString, OpFindAllRunes},
-		{OpSplit, OpReplaceFunc}, {OpReplace, OpMatchString, OpFindAllString}, {OpCompatAllSubmatch, OpCompatAllIndex, OpCompatSubmatchIndex}}[r.n(8)]
+		{OpSplit, OpReplaceFunc}, {OpReplace, OpMatchString, OpFindAllString}, {OpCompatAllSubmatch, OpCompatAllIndex, OpCompatSubmatchIndex},
+		{OpEngine}, {OpMarshalRoundTrip, OpEngine}, {OpMarshalRoundTrip, OpMatchString}}[r.n(11)]
 	nin := 1 + r.n(2)
 	ins := make([]InputSpec, nin)
 	for i := range ins {
@@ -41,6 +42,12 @@ func genC11Hammer(seed uint64, r *rng) *Scenario {
 			op := Op{Kind: kinds[r.n(len(kinds))], Re: 0, In: ins[r.n(nin)], In2: ins[r.n(nin)], N: []int{-1, -1, 1, 2}[r.n(4)], Repl: repls[(off+r.n(nrep))%len(repls)]}
 			if op.Kind == OpReplaceAt {
 				op.StartAt = -1
+			}
+			if op.Kind == OpEngine {
+				op.N, op.StartAt = r.n(1000), s.Opts // different keys registered at the same time
+			}
+			if op.Kind == OpMarshalRoundTrip {
+				op.StartAt = r.n(6)
 			}
 			v := pristine(s, &op, scriptOpCap)
 			if v.capped {
@@ -220,7 +227,7 @@ func genC11(seed uint64, tier string) *Scenario {
 				op = Op{Kind: OpPoolGC}
 			case x == 18:
 				re := r.n(nshared)
-				op = Op{Kind: OpEngine, Re: re, In: genInput(r, pats[re], false), N: r.n(4), StartAt: sc.Res[re].Opts}
+				op = Op{Kind: OpEngine, Re: re, In: genInput(r, pats[re], false), N: r.n(1000), StartAt: sc.Res[re].Opts}
 			default:
 				re := r.n(nshared)
 				op = genOp(r, re, pats[re], true)
@@ -288,6 +295,7 @@ func genC11(seed uint64, tier string) *Scenario {
 	cfg.Jitter = p / 4 * int64(r.n(2))
 	cfg.Alphabet = alphabetOf(sc)
 	sc.Cfg = cfg
+	viaUnmarshal(r, sc, 1, 6)
 	nameOps(sc)
 	return sc
 }
